@@ -48,10 +48,15 @@ def handleCall (op : String) (inp : Json) (impl : Option Json) : R (Option Json)
     let checkMono := match optFld inp "check_monotone" with
       | some (Json.bool b) => b
       | _ => false
-    let cfg : CallCfg := { ploidy, purity, hapX, female, par }
+    -- antilogs of the thresholds (exact doubles `2.0 ** thr`), needed when the scan runs on the rescaled log2
+    let thrPow2 ← (match optFld inp "thr_pow2" with
+      | some j => getList getRat j
+      | none => pure [])
+    let cfg : CallCfg := { ploidy, purity, hapX, female, par, thrPow2 }
     if ploidy == 0 then throw "ploidy 0 is outside the model"
-    if m == .threshold && (purityActive purity).isSome then
-      throw "threshold after purity rescaling is outside the model (re-reads the float log2)"
+    let onPurity := (purityActive purity).isSome
+    if m == .threshold && onPurity && thrPow2.length != thr.length then
+      throw "threshold after purity rescaling needs thr_pow2"
     -- `variants`: the BAF column came from the `variants` argument (rescaled for purity on the purity path)
     let fromVariants := match optFld inp "variants" with
       | some (Json.bool b) => b
@@ -68,9 +73,16 @@ def handleCall (op : String) (inp : Json) (impl : Option Json) : R (Option Json)
       let s2 : Rat := match row.baf with
         | some b => halfSlack (o.absolute * ((absRat (b - 1/2)) + 1/2))
         | none => 1
-      let s3 : Rat := if m == .threshold then intSlack ((refCopiesPure row.chrom ploidy hapX : Rat) * row.t) else 1
+      -- the value the threshold scan reads: the table's ratio, or the rescaled one on the purity path
+      let scanT : Rat := if onPurity then o.ratio.getD row.t else row.t
+      let s3 : Rat := if m == .threshold then intSlack ((refCopiesPure row.chrom ploidy hapX : Rat) * scanT) else 1
       let s3' : Rat := if m == .threshold && (refCopiesPure row.chrom ploidy hapX) == 0 then 1 else s3
-      ratJ (min (if m == .threshold then 1 else s1) (min (if hasBaf then s2 else 1) s3')))
+      -- on the purity path the real scan compares a float log2 with thr, the model the ratio with 2^thr:
+      -- relative distance to the nearest threshold antilog
+      let s4 : Rat := if m == .threshold && onPurity then
+          thrPow2.foldl (fun acc th => min acc (absRat (scanT / th - 1))) 1
+        else 1
+      ratJ (min (min (if m == .threshold then 1 else s1) s4) (min (if hasBaf then s2 else 1) s3')))
     let spec ← (match impl with
       | none => pure Json.null
       | some ij => do
@@ -104,7 +116,21 @@ def handleCall (op : String) (inp : Json) (impl : Option Json) : R (Option Json)
           bad "nan_gives_reference" (fun r _ i =>
             if m == .threshold && r.v.isNone then i.1 == some (refCopiesPure r.chrom ploidy hapX : Int) else true) ++
           bad "threshold_step" (fun r _ i =>
-            if m == .threshold then
+            if m == .threshold && onPurity then
+              -- purity path: the scan reads the log2 the call itself wrote (here as the ratio 2^log2 of the REAL
+              -- output): cn = number of thresholds strictly below it, scaled and truncated, ceil above the last
+              match i.2.1, i.1 with
+              | some got, some c =>
+                let rp := refCopiesPure r.chrom ploidy hapX
+                if thrPow2.any (fun th => absRat (got / th - 1) < 1/100000000) then true else
+                let below := thrPow2.countP (fun th => decide (th < got))
+                if below < thrPow2.length then
+                  c == (if rp ≠ ploidy then ((below * rp / ploidy : Nat) : Int) else (below : Int))
+                else
+                  let q := (rp : Rat) * got
+                  c == q.ceil || (intSlack q < 1/10000000 && absRat ((c : Rat) - q) ≤ 1 + 1/10000000)
+              | _, _ => false
+            else if m == .threshold then
               match r.v, i.1 with
               | some v, some c =>
                 let rp := refCopiesPure r.chrom ploidy hapX
